@@ -65,7 +65,24 @@ func runBuilderCase(tw *traceWriter, cid int, ops []bOp, routers []string) {
 	tw.emit(map[string]interface{}{"e": "bcase", "cid": cid})
 	var cur *bObs
 	ws := new(restful.WebService)
+	ws.SetDynamicRoutes(true)
 	builders := map[int]*restful.RouteBuilder{}
+	// containers (one per router) the WebService is added to, at the "cadd" call or else at the end
+	containers := map[string]*restful.Container{}
+	addNow := func() {
+		for _, router := range routers {
+			c := restful.NewContainer()
+			if router == "jsr311" {
+				c.Router(restful.RouterJSR311{})
+			} else {
+				c.Router(restful.CurlyRouter{})
+			}
+			if pv := safely(func() { c.Add(ws) }); pv != "" {
+				fatal("Container.Add panicked: %s", pv)
+			}
+			containers[router] = c
+		}
+	}
 	nf := 0
 	handler := func(req *restful.Request, resp *restful.Response) {
 		if cur != nil {
@@ -117,6 +134,13 @@ func runBuilderCase(tw *traceWriter, cid int, ops []bOp, routers []string) {
 			builders[o.B].Filter(mkFilter(nf, false))
 		case "route":
 			ws.Route(builders[o.B])
+		case "cadd":
+			addNow()
+		case "rm":
+			rt := ws.Routes()[o.B-1]
+			if err := ws.RemoveRoute(rt.Path, rt.Method); err != nil {
+				fatal("RemoveRoute: %v", err)
+			}
 		default:
 			fatal("unknown builder op %q", o.Op)
 		}
@@ -126,26 +150,11 @@ func runBuilderCase(tw *traceWriter, cid int, ops []bOp, routers []string) {
 	if len(routes) == 0 {
 		return
 	}
+	if len(containers) == 0 {
+		addNow()
+	}
 	for _, router := range routers {
-		c := restful.NewContainer()
-		if router == "jsr311" {
-			c.Router(restful.RouterJSR311{})
-		} else {
-			c.Router(restful.CurlyRouter{})
-		}
-		panicked := ""
-		func() {
-			defer func() {
-				if pv := recover(); pv != nil {
-					panicked = fmt.Sprint(pv)
-				}
-			}()
-			c.Add(ws)
-		}()
-		if panicked != "" {
-			// one WebService can be added to one container only once per ServeMux pattern: cannot happen here
-			fatal("Container.Add panicked: %s", panicked)
-		}
+		c := containers[router]
 		for ri, rt := range routes {
 			path := strings.ReplaceAll(rt.Path, "{w}", "7")
 			cts := []string{"", bJ, bX}
@@ -218,6 +227,8 @@ func randomBuilderCase(r *rand.Rand) []bOp {
 	live := map[int]bool{}
 	curM, curP := map[int]string{}, map[int]string{}
 	taken := map[string]bool{}
+	regd := []string{} // method+path of the registered routes, in order
+	added := false
 	made := 0
 	n := 6 + r.Intn(12)
 	if r.Intn(2) == 0 {
@@ -231,7 +242,17 @@ func randomBuilderCase(r *rand.Rand) []bOp {
 		case k == 1:
 			ops = append(ops, bOp{Op: "wsConsumes", V: lists[r.Intn(len(lists))]})
 		case k == 2:
-			ops = append(ops, bOp{Op: "wsFilter", V: []string{}})
+			if r.Intn(2) == 0 {
+				ops = append(ops, bOp{Op: "wsFilter", V: []string{}})
+			} else if !added && r.Intn(2) == 0 {
+				added = true
+				ops = append(ops, bOp{Op: "cadd", V: []string{}})
+			} else if len(regd) > 0 {
+				i := r.Intn(len(regd))
+				delete(taken, regd[i])
+				regd = append(regd[:i], regd[i+1:]...)
+				ops = append(ops, bOp{Op: "rm", B: i + 1, V: []string{}})
+			}
 		case k <= 4:
 			made++
 			live[b] = true
@@ -259,6 +280,7 @@ func randomBuilderCase(r *rand.Rand) []bOp {
 				continue
 			}
 			taken[key] = true
+			regd = append(regd, key)
 			ops = append(ops, bOp{Op: "route", B: b, V: []string{}})
 		}
 	}
